@@ -9,6 +9,7 @@ CONSTANTS
   Scenario = "core"
   Size = "s"
   Prelude = 0
+  Reads = {}
   DevShift = FALSE
 CONSTRAINT Bounded
 INVARIANT Emit
